@@ -182,7 +182,8 @@ def gen_program(rng, st, n_ops):
                     g.add(nd("TupleGet", [a], i=i), g.types[a - 1]["el"][i])
             elif kind == "named":
                 ds = [rng.randint(1, len(g.nodes)) for _ in range(2)]
-                g.add(nd("CreateNamedTuple", ds, nm=["p", "q"]), {"k": "n", "nm": ["p", "q"], "el": [g.types[d - 1] for d in ds]})
+                nm = rng.choice([["p", "q"], ["q", "p"], ["second", "first"]])     # declaration order need not be name order
+                g.add(nd("CreateNamedTuple", ds, nm=nm), {"k": "n", "nm": nm, "el": [g.types[d - 1] for d in ds]})
             elif kind == "nget":
                 ts = [i + 1 for i, t in enumerate(g.types) if t["k"] == "n"]
                 a = g.pick(ts)
